@@ -875,6 +875,15 @@ pub fn resolve(g: &BuildingG) -> Building {
             })
             .collect();
         if let SysKind::AuxMulti = s.kind {
+            // one system in six delivers the same energy to each of its services at every step (equal
+            // shares: the re-assigned auxiliary lines are then textually identical)
+            if outs.len() >= 2 && outs[0].2 % 6 == 0 {
+                let v0 = outs[0].1.clone();
+                for o in outs.iter_mut().skip(1) {
+                    o.1 = v0.clone();
+                }
+                tags.push("equal_outputs".into());
+            }
             // assignable: total magnitude of the outputs (per service sums) must be > 0
             let mut per_srv: std::collections::BTreeMap<Srv, Vec<i64>> = Default::default();
             for (sv, v, _) in &outs {
